@@ -1,6 +1,8 @@
 package prove
 
 import (
+	"fmt"
+	"os"
 	"math/big"
 	"regexp/syntax"
 	"go/token"
@@ -360,6 +362,12 @@ func (c *Ctx) boolCallFacts(call *ssa.Call, truth bool) {
 		}
 	default:
 		c.predicateFacts(call, truth)
+		// a predicate with several exits: what every return with this verdict establishes
+		k := int64(0)
+		if truth {
+			k = 1
+		}
+		c.condCallFacts(call, k)
 	}
 }
 
@@ -929,6 +937,8 @@ func (w *World) condPost(fn *ssa.Function, resIdx int, K int64) []condFact {
 	if fn.Blocks == nil || !w.P.InModule(fn) {
 		return nil
 	}
+	w.condBusy++
+	defer func() { w.condBusy-- }()
 	var ints, seqs []int
 	for i, p := range fn.Params {
 		if _, _, ok := isIntType(p.Type()); ok {
@@ -948,6 +958,52 @@ func (w *World) condPost(fn *ssa.Function, resIdx int, K int64) []condFact {
 	}
 	for _, q := range seqs {
 		cands = append(cands, condFact{'l', 0, q, 1})
+		// len(q) >= k for the constants len(q) is compared with
+		seenK := map[int64]bool{1: true}
+		for _, b := range fn.Blocks {
+			for _, in := range b.Instrs {
+				bo, ok := in.(*ssa.BinOp)
+				if !ok || !isCmp(bo.Op) {
+					continue
+				}
+				isLenQ := func(v ssa.Value) bool {
+					c, ok := v.(*ssa.Call)
+					if !ok {
+						return false
+					}
+					bi, isB := c.Common().Value.(*ssa.Builtin)
+					return isB && bi.Name() == "len" && c.Common().Args[0] == ssa.Value(fn.Params[q])
+				}
+				var kv ssa.Value
+				if isLenQ(bo.X) {
+					kv = bo.Y
+				} else if isLenQ(bo.Y) {
+					kv = bo.X
+				}
+				// any small constant of a comparison that involves len(q), also inside a
+				// sum (len(q) >= 8+4*n establishes len(q) >= 8 when n >= 0)
+				var consts func(v ssa.Value, d int)
+				consts = func(v ssa.Value, d int) {
+					if v == nil || d > 3 {
+						return
+					}
+					if k, ok := constInt(v); ok && k.IsInt64() && k.Int64() > 0 && k.Int64() < 1<<20 {
+						for _, kk := range []int64{k.Int64(), k.Int64() + 1} {
+							if !seenK[kk] {
+								seenK[kk] = true
+								cands = append(cands, condFact{'l', 0, q, kk})
+							}
+						}
+						return
+					}
+					if b2, ok := v.(*ssa.BinOp); ok && (b2.Op == token.ADD || b2.Op == token.SUB) {
+						consts(b2.X, d+1)
+						consts(b2.Y, d+1)
+					}
+				}
+				consts(kv, 0)
+			}
+		}
 	}
 	// upper bounds p <= k, k taken from the constants p is compared with
 	for _, p := range ints {
@@ -1002,6 +1058,9 @@ func (w *World) condPost(fn *ssa.Function, resIdx int, K int64) []condFact {
 				continue
 			}
 		} else if bt, isB := rv.Type().Underlying().(*types.Basic); isB && bt.Kind() == types.Bool {
+			if bv, isConst := boolConst(rv); isConst && bv != (K != 0) {
+				continue // a literal verdict other than the assumed one
+			}
 			c.assume(rv, K != 0)
 		} else {
 			rf := c.Lin(rv)
@@ -1039,6 +1098,9 @@ func (w *World) condPost(fn *ssa.Function, resIdx int, K int64) []condFact {
 		}
 	}
 	w.condC[key] = out
+	if os.Getenv("MANTICHECK_DEBUG_ENTRY") == "2" {
+		fmt.Fprintf(os.Stderr, "condPost %s: %d returns, %d/%d candidates alive %v\n", key, nret, len(out), len(cands), out)
+	}
 	return out
 }
 
